@@ -179,6 +179,8 @@ var props = []PropSpec{
 			"inductive step: the pre-state is produced by the real operations (create, Update + heap.Fix via the VerifSetDeadlines hook) with symbolic deadlines, readiness and retry counts, so every valid (map, heap) arrangement of up to N flows arises",
 		}, codecAssumptions...),
 		Harnesses: []HarnessSpec{
+			{Func: "Check_RejectedRecord", Reach: []string{"rejected", "recovered"}, Tune: func(c *sym.Config, th bool) { c.ClockMode = "frozen" },
+				Bounds: "statistics aggregation configured; a first record without flowStartSeconds (rejected), then a well-formed record of the same key, then a scan after the deadlines"},
 			{Func: "Check_RecordOnWaitingFlow", Reach: []string{"same-node-record", "correlating-record"}, Tune: func(c *sym.Config, th bool) { c.ClockMode = "frozen" },
 				Bounds: "one inter-node flow waiting for correlation, created by either node, arbitrary deadlines (T0 + k*2^30 ns, |k| <= 400), then one more record from the same or from the other node"},
 			{Func: "Check_Step", Reach: []string{"record", "scan", "callback-failed", "inactive-expiry-removes", "active-expiry-keeps", "not-ready", "expiry", "expiry-empty"},
@@ -372,7 +374,7 @@ var props = []PropSpec{
 						c.MaxPreemptions = 5
 					}
 				},
-				Bounds: "pairs of operations in two goroutines: {ingest source record || ingest destination record, ingest || GetNumFlows, ingest || GetRecords, ingest || GetExpiryFromExpirePriorityQueue, ingest || expiry scan after the deadlines} x flow existing before or not; EVERY interleaving of their synchronisation points (mutex lock/unlock, WaitGroup) with at most 3 (quick) / 5 (thorough) preemptions; symbolic counters; result compared with both sequential orders"},
+				Bounds: "pairs of operations in two goroutines: {ingest source record || ingest destination record, two expiry scans over a due flow whose callback fails the first time it is invoked, ingest || GetNumFlows, ingest || GetRecords, ingest || GetExpiryFromExpirePriorityQueue, ingest || expiry scan after the deadlines} x flow existing before or not; EVERY interleaving of their synchronisation points (mutex lock/unlock, WaitGroup) with at most 3 (quick) / 5 (thorough) preemptions; symbolic counters; result compared with both sequential orders"},
 		},
 	},
 	{
